@@ -255,8 +255,7 @@ def r3_port_kinds(ctx, nf) -> None:
     p = sym("port")
     order = [t for g, t in rets if g and g[0][1] and g[0][0] == ("op", "cmp:Eq", (attr(p, "offset"), const(-1)))]
     value = [t for g, t in rets if g and not g[0][1]]
-    ok = len(rets) == 2 and order and order[0] == ("ctor", "hugr.tys.OrderKind", ()) and value and value[0][0] == "ctor" and value[0][1] == "hugr.tys.ValueKind" \
-        and "_sig_port_type" in show(value[0]) and ".outer_signature(self)" in show(value[0])
+    ok = len(rets) == 2 and order and order[0] == ("ctor", "hugr.tys.OrderKind", ()) and value and value[0] == nf.expr_nf("tys.ValueKind(_sig_port_type(self.outer_signature(), port))", d, extra={"port": p})[0]
     ctx.check(bool(ok), "C06.R3", "hugr.ops.DataflowOp.port_kind", d.module.path, d.methods["port_kind"].lineno,
               "a dataflow op's port is the order port for offset -1 and otherwise a value port typed by its outer signature", d.methods["port_kind"],
               found="; ".join(show(t) for g, t in rets))
@@ -310,7 +309,9 @@ def r4_call(ctx, nf) -> None:
                 t[1] == "cmp:Eq" and got in t[2] for t in tests)
         elif term[0] == "ctor" and term[1] == "hugr.tys.ValueKind":
             inner = ctor_args(term).get("ty")
-            if not (inner and inner[0] == "call" and inner[1].endswith("_sig_port_type") and inner[2][0] == attr(s, "instantiation")):
+            pname = c.methods["port_kind"].args.args[1].arg
+            want_ty, _ = nf.expr_nf(f"_sig_port_type(self.instantiation, {pname})", c, extra={pname: sym(pname)})
+            if inner != want_ty:
                 ok_val = False
         else:
             ok_val = False
